@@ -1784,6 +1784,37 @@ async def maildir_single(run: 'Run') -> None:
         if validity == 'invalid' or len(script) > SCRIPT_MUST:
             continue
         c = rng.choice([a1, a2])
+        if rng.random() < 0.3 and validity == 'valid':
+            # another name: the store may refuse it, but what it answers OK
+            # it must have stored (the statement is not restricted to the
+            # one name this backend keeps)
+            other = rng.choice([b'other', b'Active', b'active2', b'x',
+                                b'vacation'])
+            r = await ask(c, b'PUTSCRIPT "%s" {%d+}\r\n' % (
+                other, len(script)) + script + b'\r\n')
+            run.count('maildir_other_name_puts')
+            if r.cond == b'OK':
+                g = await ask(c, b'GETSCRIPT "%s"\r\n' % other)
+                if g.cond != b'OK' or payload(g) != script:
+                    run.report('putscript-ok-but-not-stored:maildir',
+                               'maildir: PUTSCRIPT "%s" <%d octets> answered '
+                               'OK; GETSCRIPT "%s": %s' % (
+                                   other.decode(), len(script),
+                                   other.decode(), g.brief()))
+                    return
+            continue
+        if rng.random() < 0.15 and stored is not None:
+            # the active script cannot be deleted
+            r = await ask(c, b'DELETESCRIPT "active"\r\n')
+            run.count('maildir_delete_active')
+            ls = await ask(c, b'LISTSCRIPTS\r\n')
+            if r.cond == b'OK' or names(ls) != [(b'active', True)]:
+                run.report('active-script-deleted:maildir',
+                           'maildir: DELETESCRIPT "active" answered %s; '
+                           'LISTSCRIPTS then %r' % (r.cond.decode(),
+                                                    names(ls)))
+                return
+            continue
         r = await ask(c, b'PUTSCRIPT "active" {%d+}\r\n' % len(script) +
                       script + b'\r\n')
         what = 'maildir: PUTSCRIPT "active" <%d octets, %s> answered %s' % (
